@@ -8,6 +8,7 @@ import (
 	"strings"
 	"sync"
 	"testing"
+	"time"
 
 	"github.com/jamespfennell/gtfs"
 	"github.com/jamespfennell/gtfs/extensions/nyctalerts"
@@ -57,6 +58,9 @@ type CaseC06RT struct {
 	Zone string
 	Ext  ExtSpec
 	Msgs []*rgen.Msg // earlier parses through the same options object, then the target (last)
+	// Model: the target is a conflict-free message, so the reference model of the configured extension says what a parse of it
+	// returns whatever this process parsed before.
+	Model bool `json:",omitempty"`
 }
 
 type CaseC06Static struct {
@@ -167,6 +171,11 @@ func checkC06RT(c CaseC06RT) error {
 		if i == 0 {
 			first = js
 			firstNeutral = c06EnvNeutral(r)
+			if c.Model {
+				if err := rtModel(c.Ext, c.Zone, c.Msgs[len(c.Msgs)-1], rgen.Normalize(r)); err != nil {
+					return vt.FailSig("differs-from-model", "extension %+v: the parse differs from the reference model (it may depend on what this process parsed earlier): %v", c.Ext, err)
+				}
+			}
 		} else if js != first {
 			return vt.FailSig("nondeterministic", "extension %+v: parse #%d of the same bytes with fresh options differs from parse #1: %s", c.Ext, i+1, rgen.FirstDiff(js, first))
 		}
@@ -228,6 +237,12 @@ func checkC06Static(c CaseC06Static) error {
 		js := sgen.JS(sgen.Normalize(s))
 		if i == 0 {
 			first = js
+			// what a parse of these bytes returns whatever came before it is what the reference model says (C01 checks the
+			// model against single parses): a result that was shaped by an earlier case of this process differs from it
+			want := sgen.Expect(c.Feed, sgen.Options{InheritWheelchairBoarding: c.Inherit}).SortedServices()
+			if d := sgen.Diff(sgen.ReconcileGaps(sgen.Normalize(s).SortedServices(), want), want); d != "" {
+				return vt.FailSig("differs-from-model", "the parse differs from the reference transcription of the feed (it may depend on what this process parsed earlier): %s", d)
+			}
 		} else if js != first {
 			return vt.FailSig("nondeterministic", "parse #%d of the same bytes differs from parse #1: %s", i+1, rgen.FirstDiff(js, first))
 		}
@@ -323,7 +338,8 @@ func TestC06Realtime(t *testing.T) {
 			m, _, _ := genC06Msg(t, zone, ext)
 			c.Msgs = append(c.Msgs, m)
 		}
-		target, idVehicles, fb := genC06Msg(t, zone, ext)
+		target, idVehicles, fb, modelOK := genC06MsgModel(t, zone, ext)
+		c.Model = modelOK
 		if ext.Kind == "nycttrips" && rapid.Bool().Draw(t, "historyVariantOfTarget") {
 			// an earlier feed about the same trips in another state: every NYCT trip assigned
 			v := cloneVia(target)
@@ -376,6 +392,26 @@ func TestC06Static(t *testing.T) {
 		c.Env = genEnv(t)
 		for i := rapid.IntRange(0, 3).Draw(t, "history"); i > 0; i-- {
 			h, _ := sgen.GenFeed(t, sgen.DefaultGenOpts())
+			c.History = append(c.History, h)
+		}
+		if len(f.Agencies) > 0 && rapid.IntRange(0, 2).Draw(t, "zoneSpellingHistory") == 0 {
+			// an earlier feed that is the target with its agency zone spelled in another case: "europe/london" is not a zone
+			// name (the fallback applies), "Europe/London" is - whichever comes first must not decide for the other
+			h := cloneVia(f)
+			tz := h.Agencies[0].TZ
+			other := strings.ToLower(tz)
+			if other == tz {
+				other = strings.ToUpper(tz)
+			}
+			for _, z := range sgen.AgencyZones { // prefer a spelling the generator also uses (the loadable one, if there is one)
+				if strings.EqualFold(z, tz) && z != tz {
+					other = z
+					if _, err := time.LoadLocation(z); err == nil {
+						break
+					}
+				}
+			}
+			h.Agencies[0].TZ = other
 			c.History = append(c.History, h)
 		}
 		services := map[string]bool{}
